@@ -214,7 +214,7 @@ def edit_script(draw):
     for i in range(n):
         ops.append({"op": draw(st.sampled_from(["add_node", "add_node", "add_value_node", "remove_leaf",
                                                 "set_description", "add_suggested", "add_unit", "add_unit_class",
-                                                "add_value_class", "add_modifier", "add_rooted"])),
+                                                "add_value_class", "add_modifier", "add_rooted", "add_rooted"])),
                     "pos": draw(st.integers(0, 5000)), "k": draw(st.integers(0, 11)),
                     "desc": draw(st.sampled_from(DESC_CHARS)), "i": i})
     return {"base": base, "ops": ops}
@@ -253,6 +253,12 @@ def apply_edits(case):
                 if not lib:
                     continue
                 cands = [(e, long) for e, long in nodes if not gen_schema.attr_elems(e, "inLibrary")]
+                if k % 2:
+                    # below a top-level group that is not extensionAllowed (its members keep their written order)
+                    fixed_roots = {long for e, long in nodes if "/" not in long
+                                   and not gen_schema.attr_elems(e, "extensionAllowed")}
+                    inside = [(e, long) for e, long in cands if long.split("/")[0] in fixed_roots and "/" in long]
+                    cands = inside or cands
             else:
                 cands = nodes
                 if lib:   # library nodes may only hang below library nodes (or be rooted)
